@@ -32,3 +32,15 @@ Definition heap_ok (c : hcase) : option nat :=
   | None => Some 4%nat
   | Some (v, s) => if val_eqb v (hc_val c) && (s =? hc_size c) then None else Some 5%nat
   end.
+
+(* freshly constructed objects that hold references: the holder's own bytes must be the documented image
+   (reference slots are open cells) AND the strict decoder, following the references through the whole
+   buffer, must recover the value.  Codes as for layout_ok. *)
+Definition heap_img_ok (c : hcase) : option nat :=
+  match enc (hc_ty c) (hc_val c) with
+  | None => Some 1%nat
+  | Some img =>
+    if negb (len img =? hc_size c) || negb (in_rangeb (hc_mem c) (hc_off c) (hc_size c)) then Some 2%nat
+    else if negb (cells_match img (rd (hc_mem c) (hc_off c) (hc_size c))) then Some 3%nat
+    else heap_ok c
+  end.
